@@ -83,6 +83,8 @@ func genC10(cs *CaseSet, rng *Rng, tier string, dir string) {
 	for i := range all {
 		all[i] = 255
 	}
+	// ASCII names only: folder transfers carry item names as the raw bytes on disk (UTF-8) while file lists use Mac Roman;
+	// the property fixes no encoding for item headers, so names outside ASCII are left to C11 (lists) and C08 (downloads)
 	names := []string{"alpha", "beta.txt", "Gamma Folder", "d", "e e.sit", "zeta", "Readme", "m.mov", "x.y.z", "00", "~tilde", "UPPER", "movie.bin.incomplete", "half.incomplete"}
 	for h := 0; h < nHist; h++ {
 		env := NewEnv(fmt.Sprintf("%s-%d", dir, h), EnvOpts{})
